@@ -451,6 +451,12 @@ class C09(core.Check):
                             detail=dict(src=c.B, plain=t, problem=pr[1]))
             return dict(ok=True, nt=nt, key=None, cnt=cnt, obs=dict(src=tex.short(c.B, 200), plain=tex.short(t, 120)))
         D, B = c.D, c.B
+        if not opts.get('nosp') and case['s'] % 3 == 1:
+            # a skipped region with other definitions of the same names: skipped on every route
+            names = sorted(set(re.findall(r'\\ym[a-z]', D)))
+            D += '%%% LT-SKIP-BEGIN\n' + ''.join('\\def%s{hskip%dQ}\n' % (nm, k) for k, nm in enumerate(names)) \
+                 + '\\newcommand{\\yskipped}{x}\n%%% LT-SKIP-END\n'
+            cnt['definitions_with_skipped_region'] = 1
         fn = os.path.join(self.tmp, 'defs.tex')
         with open(fn, 'w') as f:
             f.write(D)
@@ -505,7 +511,7 @@ class C09(core.Check):
                     obs=dict(D=tex.short(D, 200), B=tex.short(B, 150), plain=tex.short(t2, 120)))
 
     def quotas(self, tier):
-        return {'definitions_mid_document': 300, 'subst_definer': 300, 'subst_optional_given': 300, 'subst_optional_default': 200, 'subst_cases': 3000, 'subst_inner': 500, 'subst_arg': 500, 'subst_arg_ends_with_control_word': 500, 'routes': 2000, 'uses_in_detached_text': 500, 'with_no_specials': 300, 'inline': 500, 'ltinput_twice': 300, 'calls': 5000, 'unknown_uses': 100, 'default_used': 300,
+        return {'definitions_mid_document': 300, 'subst_definer': 300, 'subst_optional_given': 300, 'subst_optional_default': 200, 'subst_cases': 3000, 'subst_inner': 500, 'subst_arg': 500, 'subst_arg_ends_with_control_word': 500, 'routes': 2000, 'definitions_with_skipped_region': 300, 'uses_in_detached_text': 500, 'with_no_specials': 300, 'inline': 500, 'ltinput_twice': 300, 'calls': 5000, 'unknown_uses': 100, 'default_used': 300,
                 'nested_calls': 500}
 
 
